@@ -526,6 +526,17 @@ impl IsTerminal for File {
         false
     }
 }
+// (stderr itself is not shadowed; in a simulated run it is never a terminal)
+impl IsTerminal for ::std::io::Stderr {
+    fn is_terminal(&self) -> bool {
+        false
+    }
+}
+impl IsTerminal for ::std::io::StderrLock<'_> {
+    fn is_terminal(&self) -> bool {
+        false
+    }
+}
 
 // endregion: std::io::{stdin, stdout}
 
